@@ -90,8 +90,14 @@ class Cmp:
             sub = Cmp(ver, self.allow_default_extras)
             tbl = sub.m.types.get(a.get("type"))
             if tbl is None:
-                if not generic_equal(a, b):
-                    self.add("value-changed:member", path, "unregistered member changed")
+                # a type the frozen model does not know (custom): every input key must survive unchanged; the only
+                # additions tolerated are boolean properties at false (revoked / defanged style defaults)
+                for k, v in a.items():
+                    if k not in b or not generic_equal(v, b[k]):
+                        self.add("value-changed:member", path + (k,), "custom member property changed")
+                for k in b:
+                    if k not in a and not (self.allow_default_extras and b[k] is False):
+                        self.add("property-added", path + (k,), "custom member gained %r" % k)
             else:
                 sub.table(tbl, a, b, path)
                 self.diffs.extend(sub.diffs)
